@@ -128,6 +128,9 @@ OptionFamilies == DOMAIN Dispatch
 Values(f) == DOMAIN Dispatch[f]
 
 \* documented effect of a value, as <<constant, value>> pairs ("N" stands for the horizon NMONTHS)
+FeedBioCaps == {<<"MAX_SEAWEED_AS_PERCENT_KCALS_FEED", "10">>, <<"MAX_CELLULOSIC_SUGAR_AS_PERCENT_KCALS_FEED", "10">>,
+                <<"MAX_METHANE_SCP_AS_PERCENT_KCALS_FEED", "43">>, <<"MAX_SEAWEED_AS_PERCENT_KCALS_BIOFUEL", "10">>,
+                <<"MAX_CELLULOSIC_SUGAR_AS_PERCENT_KCALS_BIOFUEL", "100">>, <<"MAX_METHANE_SCP_AS_PERCENT_KCALS_BIOFUEL", "100">>}
 Doc == [
   shutoff |-> [immediate |-> {<<"DELAY.FEED_SHUTOFF_MONTHS", "0">>, <<"DELAY.BIOFUEL_SHUTOFF_MONTHS", "0">>, <<"MINIMUM_PERCENT_FED_BEFORE_NONHUMAN_CONSUMPTION_ALLOWED", "100">>},
                one_month_delayed_shutoff |-> {<<"DELAY.FEED_SHUTOFF_MONTHS", "1">>, <<"DELAY.BIOFUEL_SHUTOFF_MONTHS", "1">>, <<"MINIMUM_PERCENT_FED_BEFORE_NONHUMAN_CONSUMPTION_ALLOWED", "100">>},
@@ -146,9 +149,11 @@ Doc == [
   meat_strategy |-> [reduce_breeding |-> {<<"BREEDING_STRATEGY", "reduced">>}, baseline_breeding |-> {<<"BREEDING_STRATEGY", "baseline">>},
                      feed_only_ruminants |-> {<<"BREEDING_STRATEGY", "feed_only_ruminants">>}],
   nutrition |-> [baseline |-> {<<"NUTRITION.KCALS_DAILY", "2100">>}, catastrophe |-> {<<"NUTRITION.KCALS_DAILY", "2100">>}],
-  intake_constraints |-> [enabled |-> {<<"MAX_SEAWEED_AS_PERCENT_KCALS_HUMANS", "10">>},
+  \* (the caps on feed and biofuel apply under both values)
+  intake_constraints |-> [enabled |-> {<<"MAX_SEAWEED_AS_PERCENT_KCALS_HUMANS", "10">>, <<"MAX_CELLULOSIC_SUGAR_AS_PERCENT_KCALS_HUMANS", "40">>,
+                                       <<"MAX_METHANE_SCP_AS_PERCENT_KCALS_HUMANS", "50">>} \cup FeedBioCaps,
                           disabled_for_humans |-> {<<"MAX_SEAWEED_AS_PERCENT_KCALS_HUMANS", "100">>, <<"MAX_CELLULOSIC_SUGAR_AS_PERCENT_KCALS_HUMANS", "100">>,
-                                                   <<"MAX_METHANE_SCP_AS_PERCENT_KCALS_HUMANS", "100">>}],
+                                                   <<"MAX_METHANE_SCP_AS_PERCENT_KCALS_HUMANS", "100">>} \cup FeedBioCaps],
   scenario |-> [no_resilient_foods |-> {<<"ADD_SEAWEED", "False">>, <<"ADD_METHANE_SCP", "False">>, <<"ADD_CELLULOSIC_SUGAR", "False">>, <<"ADD_GREENHOUSES", "False">>, <<"OG_USE_BETTER_ROTATION", "False">>},
                 all_resilient_foods |-> {<<"ADD_SEAWEED", "True">>, <<"ADD_METHANE_SCP", "True">>, <<"ADD_CELLULOSIC_SUGAR", "True">>},
                 all_resilient_foods_and_more_area |-> {<<"ADD_SEAWEED", "True">>, <<"ADD_METHANE_SCP", "True">>, <<"ADD_CELLULOSIC_SUGAR", "True">>, <<"OG_USE_BETTER_ROTATION", "True">>},
